@@ -200,28 +200,51 @@ Fixpoint skip_to_delim (delims : list byte) (l : list byte) : skipres :=
   | [] => SkEnd
   end.
 
-(* delims = None models a NULL tokenList *)
+(* the separator between a value and the delimiter that follows it (ISO 10303-21: white space and comments).
+   The loop of CheckRemainingInput - in >> ws; while the next two characters are a solidus and an asterisk: read up to
+   the first asterisk-solidus pair after them, in >> ws - as one pass over the unread input.
+   incomment: inside a comment; star: the character before was an asterisk of the comment's text (the asterisk of
+   the opening pair does not count: prev starts as NUL in the source).
+   None = a comment is opened and never closed (the input is used up looking for its end). *)
+Fixpoint sep_scan (incomment star : bool) (l : list byte) : option (list byte) :=
+  match l with
+  | [] => if incomment then None else Some []
+  | c :: r =>
+      if incomment then
+        if (star && N.eqb c 47)%bool then sep_scan false false r
+        else sep_scan true (N.eqb c 42) r
+      else if is_space c then sep_scan false false r
+      else if N.eqb c 47 then
+        match r with
+        | b :: r' => if N.eqb b 42 then sep_scan true false r' else Some l    (* a lone solidus is put back *)
+        | [] => Some l
+        end
+      else Some l
+  end.
+
+(* delims = None models a NULL tokenList (no comment is looked for then) *)
 Definition check_remaining (s : stream) (sev : Z) (delims : option (list byte)) : Z * stream :=
   if eofb s then (sev, s)
   else
-    let s1 := s_ws (s_clear s) in
-    if eofb s1 then (sev, s1)
-    else
-      match delims with
-      | Some ds =>
-          match rest s1 with
-          | c :: r =>
-              if in_delims ds c then (sev, s1)
-              else
-                match skip_to_delim ds (c :: r) with
-                | SkFound d r' => (greater sev SEVERITY_WARNING, mkS (d :: r') false false)
-                | SkSemi r' => (greater sev SEVERITY_INPUT_ERROR, mkS (59%N :: r') false false)
-                | SkEnd => (greater sev SEVERITY_INPUT_ERROR, mkS [] true true)
-                end
-          | [] => (sev, s1)
-          end
-      | None => if good s1 then (greater sev SEVERITY_WARNING, s1) else (sev, s1)
-      end.
+    match delims with
+    | Some ds =>
+        match sep_scan false false (rest s) with
+        | None => (greater sev SEVERITY_INPUT_ERROR, mkS [] true true)     (* comment never closed *)
+        | Some [] => (sev, mkS [] true false)                               (* in >> ws reached the end *)
+        | Some (c :: r) =>
+            if in_delims ds c then (sev, mkS (c :: r) false false)
+            else
+              match skip_to_delim ds (c :: r) with
+              | SkFound d r' => (greater sev SEVERITY_WARNING, mkS (d :: r') false false)
+              | SkSemi r' => (greater sev SEVERITY_INPUT_ERROR, mkS (59%N :: r') false false)
+              | SkEnd => (greater sev SEVERITY_INPUT_ERROR, mkS [] true true)
+              end
+        end
+    | None =>
+        let s1 := s_ws (s_clear s) in
+        if eofb s1 then (sev, s1)
+        else if good s1 then (greater sev SEVERITY_WARNING, s1) else (sev, s1)
+    end.
 
 (* ---------------- ReadInteger ---------------- *)
 (* result: assigned value (None = val left untouched), severity, stream *)
